@@ -122,9 +122,10 @@ def sysroot_lib():
     return os.path.join(out, 'lib')
 
 
-def scan(roots, features, local=False, extra_prelude='', keep=False, only=None, extra_deps=''):
-    """run the driver; returns Scan. Fresh target dir each time (mandatory: cargo would skip the wrapper)."""
-    alg.reset()
+def scan(roots, features, local=False, extra_prelude='', keep=False, only=None, extra_deps='', extra_rustflags='', extra_env=None, reset=True):
+    """run the driver; returns Scan. Fresh target dir each time (mandatory: cargo would skip the wrapper).
+    reset=False: do not touch the algebra's global state (used by the configuration pass, which runs beside the spec in a thread)."""
+    if reset: alg.reset()
     t0 = time.time()
     tmp = tempfile.mkdtemp(prefix='vekscan.')
     try:
@@ -152,6 +153,8 @@ def scan(roots, features, local=False, extra_prelude='', keep=False, only=None, 
         })
         env.pop('RUSTC_WORKSPACE_WRAPPER', None)
         if local: env['VEKSCAN_LOCAL'] = '1'
+        if extra_rustflags: env['RUSTFLAGS'] += ' ' + extra_rustflags
+        if extra_env: env.update(extra_env)
         if only: env['VEKSCAN_ONLY'] = only
         p = subprocess.run(['cargo', '+nightly', 'check', '--offline', '--manifest-path', os.path.join(crate, 'Cargo.toml')], capture_output=True, text=True, env=env)
         log = p.stdout + p.stderr
@@ -161,7 +164,7 @@ def scan(roots, features, local=False, extra_prelude='', keep=False, only=None, 
         if len(files) != 1:
             raise RuntimeError('driver produced %d root fact files (expected 1); log:\n%s' % (len(files), log[-3000:]))
         data = json.load(open(files[0]))
-        res = {r['name']: RootResult(r) for r in data['roots']}
+        res = {r['name']: RootResult(r) for r in data['roots']} if reset else {}
         loc = glob.glob(os.path.join(facts, 'local.*.json'))
         sc = Scan(res, time.time() - t0, log)
         sc.local = [json.load(open(x)) for x in loc]
@@ -170,3 +173,30 @@ def scan(roots, features, local=False, extra_prelude='', keep=False, only=None, 
         return sc
     finally:
         if tmp: shutil.rmtree(tmp, ignore_errors=True)
+
+
+# ---------------------------------------------------------------------------------------------------------------------------------
+# Configuration pass (every check): the verdicts are computed on the configuration the driver compiles -- debug assertions on, the
+# nightly toolchain (for which vek's build.rs emits `--cfg nightly`). Users build with the stable channel cfg and, usually, in release
+# mode. The pass compiles vek twice in local mode -- as analysed, and with `--cfg stable` + `-C debug-assertions=off` -- and hands back the
+# per-body MIR fingerprints (literals of `debug_assert!` expansions masked) and the purity report of the asserted regions.
+CONFIG_FEATURES = ['std', 'rgb', 'rgba', 'uv', 'uvw', 'vec8', 'vec16', 'vec32', 'vec64', 'mint', 'az']
+ALT_RUSTFLAGS = '-C debug-assertions=off -C overflow-checks=on'
+ALT_ENV = {'VEKSCAN_CHANNEL': 'stable'}
+
+
+class ConfigPass:
+    def __init__(self):
+        import threading
+        self.res = [None, None]; self.err = [None, None]
+        def work(i):
+            try:
+                self.res[i] = scan([], CONFIG_FEATURES, local=True, reset=False, **({} if i == 0 else {'extra_rustflags': ALT_RUSTFLAGS, 'extra_env': ALT_ENV}))
+            except Exception as e:  # reported by the caller (fail closed)
+                self.err[i] = repr(e)
+        self.threads = [threading.Thread(target=work, args=(i,), daemon=True) for i in (0, 1)]
+        for t in self.threads: t.start()
+
+    def join(self):
+        for t in self.threads: t.join()
+        return self
